@@ -300,6 +300,63 @@ def rw_expand_macro(toks, counts, name, macro_src_toks, rule):
     return relex(text(out))
 
 
+def rw_unwrap_or_else(toks, counts):
+    """R11b: `X.unwrap_or_else(|p| E)` (no preceding .map) -> `match X { Ok(v__) => v__, Err(p) => E }`;
+    X is the maximal postfix chain to the left. Only used on Result receivers (listed per item)."""
+    n = 0
+    while True:
+        si = sig_idx(toks)
+        hit = None
+        for a in range(len(si) - 5):
+            i = si[a]
+            if toks[i].text == "." and toks[si[a + 1]].text == "unwrap_or_else" and toks[si[a + 2]].text == "(":
+                uo = si[a + 2]
+                uc = match_close(toks, uo)
+                cl = [x for x in range(uo + 1, uc) if is_sig(toks[x])]
+                if not (toks[cl[0]].text == "|" and toks[cl[2]].text == "|"):
+                    continue
+                pname = toks[cl[1]].text
+                E = toks[cl[2] + 1:uc]
+                r = prev_sig(toks, i - 1)
+                start = None
+                while r >= 0:
+                    t = toks[r]
+                    if t.kind == "p" and t.text in ")]":
+                        d = 0
+                        k = r
+                        while True:
+                            if toks[k].kind == "p" and toks[k].text in ")]":
+                                d += 1
+                            elif toks[k].kind == "p" and toks[k].text in "([":
+                                d -= 1
+                                if d == 0:
+                                    break
+                            k -= 1
+                        start = k
+                        r = prev_sig(toks, k - 1)
+                        continue
+                    if t.kind == "id" or (t.kind == "p" and t.text in ":.") or t.kind == "num":
+                        if t.kind == "id" and t.text in ("return", "match", "if", "in", "let", "else"):
+                            break
+                        start = r
+                        r = prev_sig(toks, r - 1)
+                        continue
+                    break
+                if start is None:
+                    continue
+                hit = (start, i, pname, E, uc)
+                break
+        if not hit:
+            break
+        start, r_end, pname, E, uc = hit
+        X = toks[start:r_end]
+        new = relex("match ") + X + relex(" { Ok(v__) => v__, Err(%s) => " % pname) + E + relex(" }")
+        toks = relex(text(toks[:start] + new + toks[uc + 1:]))
+        n += 1
+    _count(counts, "R11", n)
+    return toks
+
+
 def rw_map_ctor_unwrap_or_else(toks, counts):
     """R11: `X.map(Path::Ctor).unwrap_or_else(|_| E)` -> `match X { Ok(v__) => Path::Ctor(v__), Err(_) => E }`
     The receiver X is the maximal postfix chain to the left."""
@@ -687,6 +744,7 @@ class Spec:
         self.proof = []
         self.raw = []
         self.ret = {}
+        self.closure = {}
 
     @staticmethod
     def load(paths):
@@ -707,6 +765,8 @@ class Spec:
                     sp.proof.append((cur[1], cur[2], cur[3], cur[4], body, p))
                 elif k == "raw":
                     sp.raw.append((body, p))
+                elif k == "closure":
+                    sp.closure[(cur[1], int(cur[2]))] = (cur[3], body, p)
             for line in open(p).read().split("\n"):
                 if line.startswith("//@ "):
                     flush()
@@ -724,6 +784,9 @@ class Spec:
                         cur = ("proof", m.group(1), m.group(2), m.group(3), int(m.group(4) or 1))
                     elif parts.startswith("raw"):
                         cur = ("raw",)
+                    elif parts.startswith("closure "):
+                        m = re.match(r"closure (\S+) (\d+) (.*)$", parts)
+                        cur = ("closure", m.group(1), m.group(2), m.group(3))
                     elif parts.startswith("ret "):
                         _, name, r = parts.split()
                         sp.ret[name] = r
@@ -799,9 +862,87 @@ def loops_in(toks, body_open, body_close):
     return out
 
 
+def closures_in(toks, body_open, body_close):
+    """(index of opening `|`, index of closing `|`, first body token, end (exclusive)) of closure
+    expressions in source order. A closure starts with `|` (or `||`) in expression-start position."""
+    out = []
+    si = [i for i in sig_idx(toks) if body_open < i < body_close]
+    a = 0
+    while a < len(si):
+        i = si[a]
+        t = toks[i]
+        if t.kind == "p" and t.text == "|":
+            p = toks[si[a - 1]] if a > 0 else None
+            starts = p is None or (p.kind == "p" and p.text in "(,=") or (p.kind == "id" and p.text in ("move", "return"))
+            if starts:
+                # closing bar
+                b = a + 1
+                while toks[si[b]].text != "|":
+                    b += 1
+                c = si[b]
+                body0 = si[b + 1]
+                if toks[body0].text == "-" and toks[si[b + 2]].text == ">":
+                    # explicit return type: the body is the following block
+                    q = b + 3
+                    while toks[si[q]].text != "{":
+                        q += 1
+                    body0 = si[q]
+                if toks[body0].kind == "p" and toks[body0].text == "{":
+                    end = match_close(toks, body0) + 1
+                else:
+                    k = body0
+                    d = 0
+                    while k < body_close:
+                        tk = toks[k]
+                        if tk.kind == "p":
+                            if tk.text in OPEN:
+                                d += 1
+                            elif tk.text in ")]}":
+                                if d == 0:
+                                    break
+                                d -= 1
+                            elif tk.text in ",;" and d == 0:
+                                break
+                        k += 1
+                    end = k
+                out.append((i, c, body0, end))
+                a = b + 1
+                continue
+        a += 1
+    return out
+
+
+def splice_closures(toks, name, spec, counts):
+    """R16: the N-th closure of a function gets the typed parameter list, named return and
+    requires/ensures clauses given in the spec (`//@ closure FN N (params) -> (ret)`); an expression
+    body is wrapped in braces. Nothing executable changes."""
+    todo = sorted([(n, hdr, body) for (fname, n), (hdr, body, p) in spec.closure.items() if fname == name], reverse=True)
+    if not todo:
+        return toks
+    fn_i, po, pc, bo = split_signature(toks)
+    cls = closures_in(toks, bo, match_close(toks, bo))
+    for n, hdr, body in todo:
+        if n < 1 or n > len(cls):
+            raise LostAnchor("%s: closure #%d requested, function has %d closures" % (name, n, len(cls)))
+        o, c, b0, end = cls[n - 1]
+        m = re.match(r"\((.*)\)\s*->\s*\((.*)\)\s*$", hdr)
+        if not m:
+            raise ValueError("bad closure header: " + hdr)
+        is_block = toks[b0].kind == "p" and toks[b0].text == "{"
+        btoks = toks[b0:end]
+        while btoks and btoks[-1].kind == "ws":
+            btoks.pop()
+        new = relex("|%s| -> (%s)\n" % (m.group(1), m.group(2))) + [Tok("bc", "/*@%s:closure%d{*/" % (name, n), 0), Tok("ws", "\n", 0), Tok("raw", body, 0), Tok("bc", "/*@}*/", 0), Tok("ws", "\n", 0)]
+        new += btoks if is_block else (relex("{ ") + btoks + relex(" }"))
+        toks = toks[:o] + new + toks[b0 + len(btoks):]
+        _count(counts, "R16")
+    return toks
+
+
 def splice(toks, name, spec, counts):
     """insert fn contract, loop contracts and proof blocks. Returns (toks, marks)
     where marks is a list of (kind, label, text_offset_start, text_offset_end) computed later from sentinels."""
+    toks = splice_closures(toks, name, spec, counts)
     fn_i, po, pc, bo = split_signature(toks)
     item_body_close = match_close(toks, bo)
     inserts = []  # (token index, text, label)
@@ -871,6 +1012,8 @@ def apply_rewrites(toks, rules, counts, ctx):
             toks = rw_expand_macro(toks, counts, args[0], ctx["macro_src"](args[1]), args[2])
         elif kind == "map_unwrap":
             toks = rw_map_ctor_unwrap_or_else(toks, counts)
+        elif kind == "unwrap_or_else":
+            toks = rw_unwrap_or_else(toks, counts)
         elif kind == "ref_ops":
             toks = rw_ref_lhs_operator(toks, counts)
         elif kind == "float_neg":
@@ -890,7 +1033,11 @@ def apply_rewrites(toks, rules, counts, ctx):
             toks = toks[:j] + [Tok("id", args[0], 0)] + toks[j + 1:]
             _count(counts, "R3")
         else:
-            raise ValueError("unknown rewrite " + kind)
+            import rewrites2
+            fnc = getattr(rewrites2, "rw_" + kind, None)
+            if fnc is None:
+                raise ValueError("unknown rewrite " + kind)
+            toks = fnc(toks, counts, *args)
         toks = relex(text(toks))
     return toks
 
